@@ -41,7 +41,17 @@ def call_pred(case, op, teams_override=None, alias=False):
     inside different teams as one rating object) -- valid for the predict operations, which do not mutate"""
     c = case if teams_override is None else dict(case, teams=teams_override)
     model, teams, _ = build(c)
-    if alias:
+    if alias == "ratings":
+        # identical PLAYERS (same mu, sigma) anywhere in the game are passed as one rating object, in separate lists
+        firstp = {}
+        for t in teams:
+            for j, p in enumerate(t):
+                key = (p.mu, p.sigma)
+                if key in firstp:
+                    t[j] = firstp[key]
+                else:
+                    firstp[key] = p
+    elif alias:
         first = {}
         for i, t in enumerate(c["teams"]):
             key = tuple((p[0], p[1]) for p in t)
@@ -61,11 +71,13 @@ def alias_clause(ctx, kind, payload, case, op, base_res, model, reg):
     """shadow execution: the same call with identical teams passed as the same list object must return the same bits"""
     if not has_identical_teams(case["teams"]):
         return
-    o = call_pred(case, op, alias=True)
-    ctx.ev("aliased==separate")
-    if o.exc is not None or repr(o.res) != repr(base_res):
-        ctx.violation("aliased==separate", kind, payload,
-                      dict(op=op, separate=repr(base_res)[:200], aliased=repr(o.res)[:200] if o.exc is None else repr(o.exc)), model, reg)
+    for how in (True, "ratings"):
+        o = call_pred(case, op, alias=how)
+        ctx.ev("aliased==separate")
+        if o.exc is not None or repr(o.res) != repr(base_res):
+            ctx.violation("aliased==separate", kind, payload,
+                          dict(op=op, aliasing="team lists" if how is True else "rating objects", separate=repr(base_res)[:200],
+                               aliased=repr(o.res)[:200] if o.exc is None else repr(o.exc)), model, reg)
 
 
 def team_mu(teams):
